@@ -154,6 +154,8 @@ def _read(handle):
 RETRY_ONLY = {
     'setitem': lambda c, v: c.__setitem__('k1', v),
     'delitem-op': lambda c, v: c.__delitem__('kf'),
+    'getitem-op': lambda c, v: c['kf'],  # the operator forms retry (tutorial); under statistics/LRU a lookup needs the lock
+    'getitem-op-inline': lambda c, v: c['k1'],
 }
 
 
@@ -188,6 +190,8 @@ def fanout_loops():
         'set-retry': lambda c, v: c.set('k1', v, retry=True),
         'incr-retry': lambda c, v: c.incr('n', 2, retry=True),
         'transact': lambda c, v: _fblock(c, v),
+        'getitem': lambda c, v: c['kf'],
+        'read': lambda c, v: _read(c.read('kf')),
     }
 
 
@@ -217,6 +221,8 @@ def django_ops():
 
 def deque_ops():
     return {
+        'getitem': lambda d, v: d[1],
+        'iter': lambda d, v: list(d),
         'append': lambda d, v: d.append(v),
         'appendleft': lambda d, v: d.appendleft(v),
         'extend': lambda d, v: d.extend([v, 1]),
@@ -234,6 +240,8 @@ def deque_ops():
 
 def index_ops():
     return {
+        'getitem': lambda i, v: i['kf'],
+        'values': lambda i, v: list(i.values()),
         'setitem': lambda i, v: i.__setitem__('k1', v),
         'setitem-new': lambda i, v: i.__setitem__('new', v),
         'delitem': lambda i, v: i.__delitem__('kf'),
@@ -263,8 +271,9 @@ def all_cells():
                 cells.append(('cache', name, ('release', 1), val, False, cfg))
     for name in RETRY_ONLY:
         for val in ('inline', 'file'):
-            for k in range(1, 6):
-                cells.append(('cache', name, ('release', k), val, True, 'fast'))
+            for cfg in (['fast'] if not name.startswith('getitem') else ['stats', 'lru']):
+                for k in range(1, 6):
+                    cells.append(('cache', name, ('release', k), val, True, cfg))
     for target, table in (('fanout', fanout_ops()), ('django', django_ops())):
         for name, (_, kind, _) in table.items():
             for val in ('inline', 'file'):
@@ -279,13 +288,15 @@ def all_cells():
                         cells.append((target, name, ('release', k), val, True, cfg))
     for name in fanout_loops():
         for val in ('inline', 'file'):
-            for k in (1, 2, 3, 5):
-                cells.append(('fanout', 'loop:' + name, ('release', k), val, True, 'fast'))
+            for cfg in (['fast'] if name not in ('getitem', 'read') else ['stats', 'lru']):
+                for k in (1, 2, 3, 5):
+                    cells.append(('fanout', 'loop:' + name, ('release', k), val, True, cfg))
     for target, table in (('deque', deque_ops()), ('index', index_ops())):
         for name in table:
             for val in ('inline', 'file'):
-                for k in (1, 2, 3, 5):
-                    cells.append((target, name, ('release', k), val, True, 'fast'))
+                for cfg in (['fast'] if name not in ('getitem', 'iter', 'values') else ['stats']):
+                    for k in (1, 2, 3, 5):
+                        cells.append((target, name, ('release', k), val, True, cfg))
     return cells
 
 
